@@ -1,6 +1,7 @@
 package props
 
 import (
+	"errors"
 	"fmt"
 
 	"pgregory.net/rapid"
@@ -23,6 +24,9 @@ func parseToTree(cd *codec, doc []byte) (model.V, []model.Ev, Outcome, error) {
 	o := guard(func() error { return cd.Parse(doc, rec) })
 	if o.Panicked() || o.Err != nil {
 		return model.V{}, rec.Evs, o, nil
+	}
+	if m := rec.RetainedIntact(); m != "" {
+		return model.V{}, rec.Evs, o, errors.New(m)
 	}
 	v, err := model.Tree(rec.Evs)
 	return v, rec.Evs, o, err
